@@ -155,7 +155,6 @@ func (ex *Executor) VerifyUnit(key string, spec *FuncSpec) {
 		v := ex.symbolicParam(st, "fv_"+fv.Name(), fv.Type())
 		fr.vals[fv] = v
 		fr.locals[fv.Name()] = localRef{v: v, isAddr: true}
-		fr.params[fv.Name()] = v
 		fvTerms = append(fvTerms, v.T)
 	}
 	if len(fvTerms) > 1 {
